@@ -53,7 +53,7 @@ chk("C14", "exploration")
 chk("C15", "exploration")
 chk("C16", "exploration")
 chk("C17", "exploration", flavour="R", wq=8, wt=12)
-chk("C18", "exploration", wq=4, wt=8)
+chk("C18", "exploration", wq=4, wt=8, floor=5)
 chk("C19", "exploration")
 chk("C20", "exploration", wq=4, wt=8)
 
